@@ -414,6 +414,26 @@ func runCase(c Case, o *kit.Obs) *kit.Failure {
 				return kit.Failf(sig, "%s: page min/max present=%v, the row path has present=%v (copied %d, re-encoded %d)", where, sa, sb, copied, reenc)
 			}
 		}
+		// min/max in the chunk statistics: governed by the destination's SkipPageBounds setting
+		chunkBounds := func(info *c02.Info) bool {
+			for gi := range info.File.RowGroups {
+				if st, ok := info.File.RowGroups[gi].Chunks[ci].Meta.Field(12); ok && (st.Has(5) || st.Has(6)) {
+					return true
+				}
+			}
+			return false
+		}
+		if ca, cb := chunkBounds(ia), chunkBounds(ib); va && ca != cb {
+			sig := "c11/chunk-bounds" + feat
+			if copied > 0 {
+				sig = "c11/verbatim-copy-keeps-source-chunk-bounds"
+			}
+			if kit.KnownSig("C11", sig) {
+				knownHits++
+			} else {
+				return kit.Failf(sig, "%s: chunk statistics min/max present=%v, the row path with the destination's settings has present=%v (copied %d, re-encoded %d)", where, ca, cb, copied, reenc)
+			}
+		}
 		// (the number of chunks carrying a filter is not compared with the row path: row groups
 		// may be cut at other rows, and a chunk holding only nulls has no filter; presence is
 		// asserted per chunk by the membership loop below)
